@@ -231,7 +231,7 @@ def check_term_ex(rec, rng, c, v, e):
         built = U.make_term(coef, t.variable, t.exponent)
     except Exception as ex:
         rec.violation("C16", f"make_term/raises/{type(ex).__name__}", "make_term raised on a triple that get_term_ex returned",
-                      {"triple": repr(t), "summary": f"make_term{(coef, t.variable, t.exponent)} raised {type(ex).__name__}"})
+                      {"text": text, "triple": repr(t), "summary": f"make_term{(coef, t.variable, t.exponent)} raised {type(ex).__name__}"})
         return
     bsh = S.shadow(built)
     # value law c * v^e
@@ -243,7 +243,7 @@ def check_term_ex(rec, rng, c, v, e):
     if r["diffs"]:
         s0, a, b = r["diffs"][0]
         rec.violation("C16", "make_term/value", "make_term(c, v, e) does not have the value c * v^e",
-                      {"triple": repr(t), "built": S.text_of(built), "summary": f"make_term{(coef, t.variable, t.exponent)} = '{S.text_of(built)}' evaluates to {b} instead of {a} at {X.sigma_json(s0)}"})
+                      {"text": text, "triple": repr(t), "built": S.text_of(built), "summary": f"make_term{(coef, t.variable, t.exponent)} = '{S.text_of(built)}' evaluates to {b} instead of {a} at {X.sigma_json(s0)}"})
         return
     try:
         back = U.get_term_ex(built)
@@ -253,7 +253,7 @@ def check_term_ex(rec, rng, c, v, e):
         same_num(back.coefficient, t.coefficient) or (back.coefficient is None and coef == 1) or (t.coefficient is None and same_num(back.coefficient, 1)))
     if not same:
         rec.violation("C16", "make_term/round-trip", "get_term_ex(make_term(t)) is not t",
-                      {"triple": repr(t), "built": S.text_of(built), "back": repr(back),
+                      {"text": text, "triple": repr(t), "built": S.text_of(built), "back": repr(back),
                        "summary": f"make_term{(coef, t.variable, t.exponent)} = '{S.text_of(built)}' decomposes to {back!r}"})
 
 
